@@ -145,6 +145,7 @@ def session(env, merge_init=True, outline_pars=False):
         if "exp" in d and m is ap:
             patches.append((d, "exp", snp.exp))
     patches.append((au.__dict__, "float", shim.sfloat))
+    patches.append((am.__dict__, "float", shim.sfloat))
     sf = afp.supported_functions
     patches += [(sf, "exp", snp.exp), (sf, "floor", snp.floor)]
     with ExitStack() as st:
